@@ -67,6 +67,13 @@ func c16Fixed() []c16Case {
 		{"once-pre-in-loop", map[string]string{"p.vuego": `<ul><li v-for="x in items"><i v-once v-pre>M1 {{ x }}</i><b>M2</b><u v-once>M3</u></li></ul>`}, "p.vuego", map[string]int{"M1": 1, "M2": 3, "M3": 1}},
 		{"once-pre-component-thrice", map[string]string{"p.vuego": `<template include="c.vuego"></template><template include="c.vuego"></template><template include="c.vuego"></template>`, "c.vuego": `<script v-once v-pre>M1 = "{{ name }}"</script><b>M2</b><style v-pre v-once>M3</style>`}, "p.vuego", map[string]int{"M1": 1, "M2": 3, "M3": 1}},
 		{"once-pre-loop-root", map[string]string{"p.vuego": `<div v-for="x in items"><p v-pre v-once>M1</p></div><p v-pre>M2 {{ y }}</p>`}, "p.vuego", map[string]int{"M1": 1, "M2": 1}},
+		// v-once elements reached THROUGH SUPPLIED SLOT CONTENT: the element is still the same element of its file, once per render
+		{"once-component-in-slot-content-and-direct", map[string]string{"p.vuego": `<template include="card.vuego"><template include="note.vuego"></template><span>M3</span></template><template include="note.vuego"></template>`,
+			"card.vuego": `<div class="card"><slot>FB</slot></div>`, "note.vuego": `<p v-once>M1</p><b>M2</b>`}, "p.vuego", map[string]int{"M1": 1, "M2": 2, "M3": 1}},
+		{"once-element-in-slot-content-of-looped-include", map[string]string{"p.vuego": `<ul><li v-for="x in items"><template include="card.vuego"><i v-once>M1</i><b>M2</b></template></li></ul>`,
+			"card.vuego": `<div class="card"><slot>FB</slot></div>`}, "p.vuego", map[string]int{"M1": 1, "M2": 3}},
+		{"once-element-in-named-slot-twice", map[string]string{"p.vuego": `<template include="two.vuego"><template #a><i v-once>M1</i><b>M2</b></template></template>`,
+			"two.vuego": `<div><slot name="a">FA</slot><hr><slot name="a">FA2</slot></div>`}, "p.vuego", map[string]int{"M1": 1, "M2": 2}},
 		// the same component in more than one layer of a layout chain: the rule applies to the page and to each layout separately
 		{"component-in-page-and-layout", map[string]string{"p.vuego": "---\nlayout: main\n---\n<template include=\"c.vuego\"></template><template include=\"c.vuego\"></template>", "layouts/main.vuego": `<aside><template include="c.vuego"></template><template include="c.vuego"></template></aside><div v-html="content"></div>`, "c.vuego": `<i v-once>M1</i><b>M2</b>`}, "p.vuego", map[string]int{"M1": 2, "M2": 4}},
 		{"component-in-two-layouts", map[string]string{"p.vuego": "---\nlayout: inner\n---\n<u>M3</u>", "layouts/inner.vuego": "---\nlayout: main\n---\n<template include=\"c.vuego\"></template><div v-html=\"content\"></div>", "layouts/main.vuego": `<template include="c.vuego"></template><template include="c.vuego"></template><div v-html="content"></div>`, "c.vuego": `<i v-once>M1</i><b>M2</b>`}, "p.vuego", map[string]int{"M1": 2, "M2": 3, "M3": 1}},
